@@ -1,7 +1,7 @@
 """C01 - an estimate is the exact count-weighted sum of group contributions (DESIGN 4/C01)."""
 import warnings
 
-from vf.symkit import PARAM, REPLAY, NoTracing, R, B, begin, close, finish, skip
+from vf.symkit import PARAM, REPLAY, NoTracing, R, B, all_close, begin, close, finish, skip
 from vf.stubs import thermo as th  # noqa: F401  (imports pgradd outside tracing)
 
 import pgradd.GroupAdd.Library as _L
@@ -23,6 +23,7 @@ FUNCTIONS_ENCODED = [
     'pgradd.ThermoChem.incomplete:ThermochemIncomplete.get_CpoR',
     'pgradd.Error:GroupMissingDataError.__init__',
 ]
+# est_twice: the same library object asked twice (history inside one library, see also C15)
 LIBS = ['BensonGA', 'GRWAqueous2018', 'GRWSurface2018', 'GuSolventGA2017Aq', 'GuSolventGA2017Vac', 'PPY',
         'PtSurface2023', 'SalciccioliGA2012', 'XieGA2022']
 BOUNDS = {
@@ -183,6 +184,39 @@ def h_est_incomplete(d: bool):
     return finish(ok, status)
 
 
+def h_est_twice(d: bool):
+    """
+    post: _[0]
+    """
+    begin()
+    # two estimates from the SAME library object with the same descriptors and different counts (and a third library
+    # call in between): each must be the sum with ITS OWN counts - nothing may be remembered between calls
+    n = PARAM.get('n', 2)
+    names = ['g%d' % i for i in range(n)]
+    corrs = dict((g, _Corr(i, simple=True)) for i, g in enumerate(names))
+    lib = _L.GroupLibrary(None, dict((g, {'thermochem': corrs[g]}) for g in names))
+    c1 = dict((g, R('a%d' % i)) for i, g in enumerate(names))
+    c2 = dict((g, R('b%d' % i)) for i, g in enumerate(names))
+    T = R('T')
+    try:
+        e1 = lib.Estimate(c1, 'thermochem')
+        v1 = e1.get_HoRT(T)
+        e2 = lib.Estimate(c2, 'thermochem')
+        v2 = e2.get_HoRT(T)
+        v1b = e1.get_SoR(T)
+    except Exception as e:
+        return finish(False, 'raised:' + type(e).__name__)
+    w1 = w2 = w1b = 0
+    for g in reversed(names):
+        w1 = w1 + c1[g] * corrs[g].v['get_HoRT']
+        w2 = w2 + c2[g] * corrs[g].v['get_HoRT']
+        w1b = w1b + c1[g] * corrs[g].v['get_SoR']
+    ok, lab = all_close([(v1, w1), (v2, w2), (v1b, w1b)],
+                        ['first estimate', 'second estimate on the same library is not the sum with its own counts',
+                         'first estimate changed after the second was made'])
+    return finish(ok, lab)
+
+
 _LIB_CACHE = {}
 
 
@@ -300,6 +334,7 @@ def obligations(tier, seed):
         obs.append(dict(name='est_stub_missing_n%d' % n, func='h_est_stub', param=dict(n=n, mode='missing'), timeout=to))
         obs.append(dict(name='est_stub_values_n%d' % n, func='h_est_stub', param=dict(n=n, mode='values', ranges=False), timeout=to))
     for n in (1, 2) if q else (1, 2, 3):
+        obs.append(dict(name='est_twice_n%d' % n, func='h_est_twice', param=dict(n=n), timeout=to))
         obs.append(dict(name='est_incomplete_n%d' % n, func='h_est_incomplete', param=dict(n=n), timeout=to))
     temps = [298.15, 500.0] if q else [100.0, 298.15, 300.0, 500.0, 1000.0, 1500.0]
     import random
